@@ -23,6 +23,7 @@ import math
 from mc import alpha
 from mc import pasts
 from mc.env import guard
+from mc.state import seq
 from tracklib.core.track import Track
 from tracklib.core.obs import Obs
 from tracklib.core.obs_coords import ENUCoords
@@ -128,6 +129,7 @@ _OB_ALL.update({
 OBLIGATIONS = {"all": dict(_OB_ALL, **{"depth/4": "a defined depth-3 bracketing carrying one more unary operator",
                                        "long_track": "a function evaluated on a track of 13, 17 or 40 observations",
                                        "track_with_a_past": "expressions evaluated on a track that had been copied, extracted, sorted, resampled or concatenated first",
+                                       "after_a_refused_expression": "an ordinary expression (aggregates included) evaluated right after an expression the evaluator refused half-way, on the same track",
                                        "named_numbers": "an expression with named numbers (operate(text, {name: value})) evaluated several times with different values",
                                        "rot/nan-first": "an order-free aggregate over values whose first one is NaN, compared with its rotations"}),
                "quick": {}, "thorough": {}}
@@ -564,7 +566,8 @@ def vclose(got, exp):
 
 def same(u, v):
     """Exact equality of two value lists, NaN equal to NaN, 1 equal to 1.0 (types are not part of the statement)."""
-    if not isinstance(u, list) or not isinstance(v, list) or len(u) != len(v):
+    u, v = seq(u), seq(v)
+    if u is None or v is None or len(u) != len(v):
         return False
     for p, q in zip(u, v):
         p, q = _num(p), _num(q)
@@ -959,15 +962,17 @@ def check_direct(variant, n, spec, ctx, bench=None):
     else:
         tree = ("B", sym, L(spec["l"]), L(spec["r"]))
         names = OBJ_REV[sym]
+    case = {"kind": "direct", "variant": variant, "N": n, "spec": spec}
+    value_op = mode == "un" and sym in UN_AGG
     try:
         exp = ref_eval(tree, env, n)
     except Undefined:
         ctx.undef()
         ctx.oblige("undefined")
+        if not value_op:
+            _returned_is_stored(ctx, case, track, names[0], mode, spec, n)
         return
     ctx.case(mode in ("afs", "saf"))
-    case = {"kind": "direct", "variant": variant, "N": n, "spec": spec}
-    value_op = mode == "un" and sym in UN_AGG
     problems = []
     for name in names:
         if name != names[0]:
@@ -1006,6 +1011,12 @@ def check_direct(variant, n, spec, ctx, bench=None):
         if vals is None or not vclose(vals, exp):
             problems.append(("values-differ", dict(det, got=post["af"].get("out"), listed=post["names"])))
             continue
+        ret = _vec(got, n)          # the list the call hands back is the column it has just stored
+        if ret is not None:
+            ctx.count("direct_returned_list_compared")
+            if not vclose(ret, exp):
+                problems.append(("returned-list-differs-from-the-stored-feature", dict(det, got=repr(got)[:200], stored=vals)))
+                continue
         others = dict(post, names=[k for k in post["names"] if k != "out"], w=[w - 1 for w in post["w"]])
         if not state_same(pre, others, False):
             problems.append(("other-state-changed", dict(det, listed=post["names"])))
@@ -1019,6 +1030,35 @@ def check_direct(variant, n, spec, ctx, bench=None):
                 "afs": "direct/scalar", "saf": "direct/scalar-rev"}[mode])
     ctx.oblige("size/%d" % n)
     ctx.outcome(("direct", names[0], repr(exp)))
+
+
+def _returned_is_stored(ctx, case, track, name, mode, spec, n):
+    """Where the reference evaluator leaves the value undefined (a division by zero ...) the operator object still hands
+    back a list and stores a feature: whatever the values are, the two are the same column (differential oracle)."""
+    def call():
+        op = getattr(Operator, name)
+        if mode == "un":
+            return track.operate(op, spec["l"], "out")
+        if mode == "afaf":
+            return track.operate(op, spec["l"], spec["r"], "out")
+        if mode == "afs":
+            return track.operate(op, spec["l"], float(spec["r"]), "out")
+        return track.operate(op, spec["r"], float(spec["l"]), "out")
+    st, got = guard(call)
+    if st != "ok" or not isinstance(got, (list, tuple)) or len(got) != n:
+        return
+    st, stored = guard(lambda: list(track.getAnalyticalFeature("out")))
+    if st != "ok" or len(stored) != n:
+        return
+    for g, s_ in zip(got, stored):
+        a, b = _num(g), _num(s_)
+        if a is None or b is None:
+            return
+        if not close(a, b):
+            ctx.violation("direct/%s/undefined-value/returned-list-differs-from-the-stored-feature" % name, case,
+                          {"operator": name, "args": spec, "returned": repr(got)[:200], "stored": repr(stored)[:200]})
+            return
+    ctx.count("direct_returned_list_compared_where_undefined")
 
 
 # ---------------------------------------------------------------------------
@@ -1066,6 +1106,7 @@ def check_rotation(variant, fn, vec, ctx):
             t = _rot_track(variant, w)
             if path == "expr":
                 st, got = guard(t.operate, "%s{a}" % fn)
+                got = seq(got) if st == "ok" and seq(got) is not None else got
                 val = got[0] if st == "ok" and isinstance(got, list) and len(got) == n else None
                 if st == "ok" and (val is None or not all(_same_num(g, got[0]) for g in got)):
                     ctx.violation("rot/%s/not-one-value-broadcast-to-every-observation" % fn, case, {"rotation": w, "got": got})
@@ -1266,6 +1307,49 @@ def check_past_expr(variant, n, past, ctx):
     ctx.outcome(("pastexpr", past, n))
 
 
+# ---- after a refused expression: an expression the evaluator rejects half-way (an unknown function, two operands that are
+# neither features nor numbers - both end in exit(1) - or a pointwise function outside its domain) must not reach into the
+# next, ordinary evaluation on the same track
+REFUSED_EXPRS = ["(a+1)*(nope*2)", "(a*2)+FOO{a}", "(a+1)+SQRT{0-a}", "c=(a+1)*(nope*2)"]
+AFTER_EXPRS = {
+    "MAX{a}-a": (None, lambda X, Y, A: [max(A) - a for a in A]),
+    "SUM{a}+x": (None, lambda X, Y, A: [sum(A) + x for x in X]),
+    "a*2-MIN{a}": (None, lambda X, Y, A: [a * 2 - min(A) for a in A]),
+    "(x+1)*(y*2)": (None, lambda X, Y, A: [(x + 1) * (y * 2) for x, y in zip(X, Y)]),
+    "b=AVG{a}+a": ("b", lambda X, Y, A: [sum(A) / len(A) + a for a in A]),
+}
+
+
+def check_after_refusal(variant, n, refused, text, ctx):
+    case = {"kind": "refused", "variant": variant, "N": n, "refused": refused, "expr": text}
+    t = _past_root(variant, n)()
+    ctx.case(True)
+    guard(t.operate, "a=x+1")
+    st, r = guard(t.operate, refused)
+    if st == "ok":
+        ctx.undef()                 # an evaluator that accepts it: nothing was refused
+        return
+    X, Y = list(t.getX()), list(t.getY())
+    st, A = guard(lambda: list(t.getAnalyticalFeature("a")))
+    if st != "ok" or not vclose(_vec(A, n) or [], [x + 1 for x in X]):
+        ctx.violation("after-a-refused-expression/operand-feature-changed-by-the-refused-call", case, {"a": repr(A)[:120]})
+        return
+    lhs, fn = AFTER_EXPRS[text]
+    exp = fn(X, Y, A)
+    st, got = guard(t.operate, text)
+    if st != "ok":
+        ctx.violation("after-a-refused-expression/%s" % ("does-not-return" if st == "hang" else "raises"), case, got)
+        return
+    if lhs is not None:
+        st, got = guard(t.getAnalyticalFeature, lhs)
+    vals = _vec(got, n) if st == "ok" else None
+    if vals is None or not vclose(vals, exp):
+        ctx.violation("after-a-refused-expression/values-differ", case, {"expected": exp[:6], "got": vals[:6] if vals else repr(got)[:80]})
+        return
+    ctx.oblige("after_a_refused_expression")
+    ctx.outcome(("refused", refused, text, n))
+
+
 def defined_size(bench, variant, tree):
     for n in reversed(SIZES):
         try:
@@ -1281,6 +1365,8 @@ def replay(case, ctx):
         return check_rotation(case["variant"], case["fn"], case["vec"], ctx)
     if case.get("kind") == "long":
         return check_long(case["variant"], case["fn"], case["pattern"], case["N"], ctx)
+    if case.get("kind") == "refused":
+        return check_after_refusal(case["variant"], case["N"], case["refused"], case["expr"], ctx)
     if case.get("kind") == "pastexpr":
         return check_past_expr(case["variant"], case["N"], case["past"], ctx)
     if case.get("kind") == "ext":
@@ -1466,6 +1552,10 @@ def run_shard(shard, ctx):
     if kind_ == "ext":
         return run_externals(shard["variant"], ctx)
     if kind_ == "pastexpr":
+        for n_ in (1, 2, 4):
+            for refused in REFUSED_EXPRS:
+                for text in AFTER_EXPRS:
+                    check_after_refusal(shard["variant"], n_, refused, text, ctx)
         for n_ in (1, 2, 4, 6):
             for past in PAST_LIST:
                 check_past_expr(shard["variant"], n_, past, ctx)
